@@ -540,6 +540,28 @@ Proof.
   - intros H. exists i. split; [exact H|apply Z.eqb_refl].
 Qed.
 
+Lemma InvN_leave_fx s : InvN s -> gcount s <> 0 -> InvN (leave_fx s).
+Proof.
+  intros N H1. pose proof N as (N0 & N1 & N2 & N3 & N4 & N5 & N6).
+  unfold leave_fx; sf. destruct (Z.eqb_spec (gcount s - 1) 0) as [C|C]; unfold InvN; sf.
+  + assert (Hf : forall i, fire (pending s) (fcnt s) i = if existsb (Z.eqb i) (pending s) then fcnt s i + 1 else fcnt s i)
+        by reflexivity.
+      split; [exact N0|]. split; [|split; [|split; [|split; [|split; [|exact N6]]]]].
+    * intros i. rewrite Hf. destruct (existsb (Z.eqb i) (pending s)) eqn:E; [|apply N1].
+        apply existsb_In in E. destruct (N3 i E) as [_ Z0]. lia.
+    * intros i. rewrite Hf. destruct (existsb (Z.eqb i) (pending s)) eqn:E; intros F1.
+      -- apply existsb_In in E. destruct (N3 i E) as [R _]. split; [exact R|exact C].
+      -- destruct (N2 i F1) as [R _]. split; [exact R|exact C].
+    * intros i [].
+    * intros i R. right. rewrite Hf. destruct (existsb (Z.eqb i) (pending s)) eqn:E.
+      -- apply existsb_In in E. destruct (N3 i E) as [_ Z0]. lia.
+      -- destruct (N4 i R) as [X|X]; [|exact X]. apply existsb_In in X. congruence.
+    * reflexivity.
+  + split; [exact N0|]. split; [exact N1|]. split; [|split; [exact N3|split; [exact N4|split; [|exact N6]]]].
+    * intros i F1. destruct (N2 i F1) as [_ X]. contradiction.
+    * intros X. contradiction.
+Qed.
+
 Lemma InvN_step s t s' : gs s t s' -> InvN s -> InvN s'.
 Proof.
   intros G N. pose proof N as (N0 & N1 & N2 & N3 & N4 & N5 & N6).
@@ -547,23 +569,7 @@ Proof.
     try (unfx; repeat match goal with |- context [if ?c then _ else _] => destruct c end;
          (apply (InvN_ext s); [reflexivity..|exact N])).
   - (* leave *)
-    unfold leave_fx; sf. destruct (Z.eqb_spec (gcount s - 1) 0) as [C|C]; unfold InvN; sf.
-    + assert (Hf : forall i, fire (pending s) (fcnt s) i = if existsb (Z.eqb i) (pending s) then fcnt s i + 1 else fcnt s i)
-        by reflexivity.
-      split; [exact N0|]. split; [|split; [|split; [|split; [|split; [|exact N6]]]]].
-      * intros i. rewrite Hf. destruct (existsb (Z.eqb i) (pending s)) eqn:E; [|apply N1].
-        apply existsb_In in E. destruct (N3 i E) as [_ Z0]. lia.
-      * intros i. rewrite Hf. destruct (existsb (Z.eqb i) (pending s)) eqn:E; intros F1.
-        -- apply existsb_In in E. destruct (N3 i E) as [R _]. split; [exact R|exact C].
-        -- destruct (N2 i F1) as [R _]. split; [exact R|exact C].
-      * intros i [].
-      * intros i R. right. rewrite Hf. destruct (existsb (Z.eqb i) (pending s)) eqn:E.
-        -- apply existsb_In in E. destruct (N3 i E) as [_ Z0]. lia.
-        -- destruct (N4 i R) as [X|X]; [|exact X]. apply existsb_In in X. congruence.
-      * reflexivity.
-    + split; [exact N0|]. split; [exact N1|]. split; [|split; [exact N3|split; [exact N4|split; [|exact N6]]]].
-      * intros i F1. destruct (N2 i F1) as [_ X]. contradiction.
-      * intros X. contradiction.
+    apply InvN_leave_fx; [apply (InvN_ext s); [reflexivity..|exact N] | exact H1].
   - (* notify takes effect *)
     assert (F0 : fcnt s (nreg s) = 0).
     { pose proof (N1 (nreg s)) as B. destruct (Z.eq_dec (fcnt s (nreg s)) 1) as [E|E]; [|lia].
@@ -584,6 +590,9 @@ Proof.
       * intros i R. destruct (Z.eq_dec i (nreg s)) as [->|Ne]; [left; left; reflexivity|].
         destruct (N4 i ltac:(lia)) as [X|X]; [left; right; exact X | right; exact X].
       * intros X. contradiction.
+  - (* destructor: leave *)
+    cbv zeta. apply (InvN_ext (leave_fx (set_pc s t PDtorPost))); [reflexivity..|].
+    apply InvN_leave_fx; [apply (InvN_ext s); [reflexivity..|exact N] | exact H1].
 Qed.
 
 (* ================= invariant W: DBF_WAITING / DBF_WAITED and the (single) waiter ================= *)
@@ -679,8 +688,8 @@ Proof.
   - (* call *) wlocal s t W H.
     destruct (call_entry_cases _ _ _ H0 H1) as [->|[->|[->|[->|[->|[->| ->]]]]]]; reflexivity.
   - (* entry *)
-    assert (Hnw : in_wait (pcs s t) = false) by (destruct H as [[-> _]| ->]; reflexivity).
-    assert (Hnc : pcs s t <> PCrash) by (destruct H as [[-> _]| ->]; discriminate).
+    assert (Hnw : in_wait (pcs s t) = false) by (destruct H as [[-> _]|[-> _]]; reflexivity).
+    assert (Hnc : pcs s t <> PCrash) by (destruct H as [[-> _]|[-> _]]; discriminate).
     unfold entry_fx. destruct (hasb (flags s) WAITED); [|destruct (hasb (flags s) CANCELED)];
       apply (InvW_local s t _ W Hnw Hnc); sf; auto; try (intros ? ?; apply upd_other; assumption);
       rewrite upd_same; apply in_wait_inv_entry.
@@ -699,9 +708,10 @@ Proof.
       try (intros ? ?; apply upd_other; assumption); rewrite upd_same; reflexivity.
   - wlocal s t W H. reflexivity.
   - (* group noise: the pc does not change *)
-    destruct H as [[v Hv]|[[tmo Hv]| Hv]].
+    destruct H as [[v Hv]|[[tmo Hv]|[Hv|Hv]]].
     + wlocal s t W Hv. rewrite Hv. reflexivity.
     + apply InvW_inside; auto; rewrite Hv; auto; try discriminate; try (intros r X; discriminate X).
+    + wlocal s t W Hv. rewrite Hv. reflexivity.
     + wlocal s t W Hv. rewrite Hv. reflexivity.
   - wlocal s t W H. reflexivity.
   - (* xchg after the completion *)
@@ -779,6 +789,18 @@ Proof.
     unfold notify_fx; sf. destruct (gcount s =? 0); apply (InvW_local s t _ W); sf; auto;
       try (rewrite H; reflexivity); try (rewrite H; discriminate);
       try (intros ? ?; apply upd_other; assumption); rewrite upd_same; reflexivity.
+  - wlocal s t W H. reflexivity.
+  - wlocal s t W H. destruct (performed s =? 0); reflexivity.
+  - (* destructor: leave *)
+    cbv zeta. unfold leave_fx; sf. destruct (gcount s - 1 =? 0); apply (InvW_local s t _ W); sf; auto;
+      try (rewrite H; reflexivity); try (rewrite H; discriminate); try (intros X; contradiction);
+      try (intros ? ?; apply upd_other; assumption); rewrite upd_same; reflexivity.
+  - wlocal s t W H. reflexivity.
+  - (* destructor: dbpd_queue *)
+    unfold take_queue; sf. destruct (queue s =? 0); apply (InvW_local s t _ W); sf; auto;
+      try (rewrite H; reflexivity); try (rewrite H; discriminate);
+      try (intros ? ?; apply upd_other; assumption); rewrite upd_same; reflexivity.
+  - wlocal s t W H. reflexivity.
 Qed.
 
 (* ================= invariant Q: the references taken on the target queue for dbpd_queue ================= *)
@@ -805,7 +827,7 @@ Proof.
 Qed.
 
 Definition holds (p : pc) : bool :=
-  match p with PSubmitCas _ | PSubmitRel _ | PRel _ | PWaitWake _ _ => true | _ => false end.
+  match p with PSubmitCas _ | PSubmitRel _ | PRel _ | PWaitWake _ _ | PDtorRel => true | _ => false end.
 Definition InvQ (s : gst) : Prop :=
   qref s = 2 * ((if queue s =? 0 then 0 else 1) + Z.of_nat (length (hands s))) /\
   NoDup (hands s) /\ forall u, In u (hands s) <-> holds (pcs s u) = true.
@@ -866,7 +888,7 @@ Proof.
   intros G Q. pose proof Q as (Q1 & Q2 & Q3).
   destruct G.
   - qlocal s t Q H. destruct (call_entry_cases _ _ _ H0 H1) as [->|[->|[->|[->|[->|[->| ->]]]]]]; reflexivity.
-  - assert (Hh : holds (pcs s t) = false) by (destruct H as [[-> _]| ->]; reflexivity).
+  - assert (Hh : holds (pcs s t) = false) by (destruct H as [[-> _]|[-> _]]; reflexivity).
     unfold entry_fx. destruct (hasb (flags s) WAITED); [|destruct (hasb (flags s) CANCELED)];
       apply (InvQ_local s t _ Q Hh); sf; auto; try (intros ? ?; apply upd_other; assumption);
       rewrite upd_same; apply holds_inv_entry.
@@ -893,7 +915,7 @@ Proof.
       try (rewrite H; reflexivity); try (intros ? ?; apply upd_other; assumption); rewrite upd_same; reflexivity.
   - qlocal s t Q H. reflexivity.
   - (* group noise *)
-    assert (Hh : holds (pcs s t) = false) by (destruct H as [[v Hv]|[[tmo Hv]| Hv]]; rewrite Hv; reflexivity).
+    assert (Hh : holds (pcs s t) = false) by (destruct H as [[v Hv]|[[tmo Hv]|[Hv|Hv]]]; rewrite Hv; reflexivity).
     apply (InvQ_local s t _ Q Hh); sf; auto; [rewrite upd_same; exact Hh | intros ? ?; apply upd_other; assumption].
   - qlocal s t Q H. reflexivity.
   - (* xchg after the completion *)
@@ -925,17 +947,154 @@ Proof.
   - qlocal s t Q H. destruct H0 as [-> | ->]; reflexivity.
   - unfold notify_fx; sf. destruct (gcount s =? 0); apply (InvQ_local s t _ Q); sf; auto;
       try (rewrite H; reflexivity); try (intros ? ?; apply upd_other; assumption); rewrite upd_same; reflexivity.
+  - qlocal s t Q H. reflexivity.
+  - qlocal s t Q H. destruct (performed s =? 0); reflexivity.
+  - cbv zeta. unfold leave_fx; sf. destruct (gcount s - 1 =? 0); apply (InvQ_local s t _ Q); sf; auto;
+      try (rewrite H; reflexivity); try (intros ? ?; apply upd_other; assumption); rewrite upd_same; reflexivity.
+  - qlocal s t Q H. reflexivity.
+  - (* destructor: dbpd_queue *)
+    unfold take_queue; sf. destruct (Z.eqb_spec (queue s) 0) as [Q0|Q0].
+    + apply (InvQ_local s t _ Q); sf; auto; [rewrite H; reflexivity | rewrite upd_same; reflexivity
+                                            | intros ? ?; apply upd_other; assumption].
+    + apply (InvQ_take s t _ Q); sf; auto; [rewrite H; reflexivity | rewrite upd_same; reflexivity | 
+                                          | intros ? ?; apply upd_other; assumption].
+      rewrite Q1. destruct (Z.eqb_spec (queue s) 0); [contradiction|]. cbn [Z.eqb]. lia.
+  - apply (InvQ_give s t _ Q); sf; auto; [rewrite H; reflexivity | rewrite upd_same; reflexivity | rewrite Q1; lia
+                                        | intros ? ?; apply upd_other; assumption].
+Qed.
+
+(* ================= invariant D: the life of the object (who is inside a call, the last release, the destructor) ========= *)
+Definition dtor_pc (p : pc) : bool := match p with PDtorPerf | PDtorLeave | PDtorPost | PDtorRel => true | _ => false end.
+Definition dtor_ok (p : pc) : bool := dtor_pc p || match p with PRet _ | PIdle | PCrash => true | _ => false end.
+Definition InvD (s : gst) : Prop :=
+  NoDup (active s) /\ (forall u, In u (active s) <-> pc_idle (pcs s u) = false) /\
+  (* after the last release only the destroying thread is anywhere, and only inside the destructor *)
+  (disposed s = true -> exists d, dtor s = Some d /\ dtor_ok (pcs s d) = true /\ forall u, u <> d -> pcs s u = PIdle) /\
+  (disposed s = false -> dleave s = false /\ forall u, dtor_pc (pcs s u) = false) /\
+  (* the destructor leaves the group only for an object that was never performed (and hence never waited for with success) *)
+  (dleave s = true -> performed s = 0 /\ Z.testbit (flags s) 2 = false) /\
+  0 <= pendsub s /\
+  (forall u, pcs s u = PDtorLeave -> performed s = 0).
+
+Lemma InvD_init pf : InvD (init_state pf).
+Proof.
+  unfold InvD, init_state; cbn. repeat split; try constructor; intros; try discriminate; try contradiction; try lia.
+Qed.
+
+Lemma gs_pcs s t s' : gs s t s' -> exists p, pcs s' = upd (pcs s) t p /\ active s' = act_upd (active s) t (pcs s t) p.
+Proof.
+  intros G. destruct G; unfx; cbv zeta; unfx; sf;
+    repeat match goal with |- context [if ?c then _ else _] => destruct c end; sf; eexists; split; reflexivity.
+Qed.
+
+Lemma active_step l (f : Z -> pc) t p : NoDup l -> (forall u, In u l <-> pc_idle (f u) = false) ->
+  NoDup (act_upd l t (f t) p) /\ (forall u, In u (act_upd l t (f t) p) <-> pc_idle (upd f t p u) = false).
+Proof.
+  intros N H. unfold act_upd. destruct (pc_idle (f t)) eqn:E1, (pc_idle p) eqn:E2.
+  - split; [exact N|]. intros u. destruct (Z.eq_dec u t) as [->|Ne]; [rewrite upd_same, H, E1, E2; tauto|].
+    rewrite upd_other by exact Ne. apply H.
+  - assert (Nt : ~ In t l) by (rewrite H, E1; discriminate). split; [constructor; assumption|].
+    intros u. destruct (Z.eq_dec u t) as [->|Ne].
+    + rewrite upd_same, E2. split; [reflexivity|intros _; left; reflexivity].
+    + rewrite upd_other by exact Ne. rewrite <- H. split; [intros [X|X]; [congruence|exact X] | intros X; right; exact X].
+  - split; [apply rm_NoDup; exact N|]. intros u. fold (rm t l). rewrite rm_In.
+    destruct (Z.eq_dec u t) as [->|Ne].
+    + rewrite upd_same, E2. split; [intros [_ X]; contradiction|discriminate].
+    + rewrite upd_other by exact Ne. rewrite <- H. tauto.
+  - split; [exact N|]. intros u. destruct (Z.eq_dec u t) as [->|Ne]; [rewrite upd_same, H, E1, E2; tauto|].
+    rewrite upd_other by exact Ne. apply H.
+Qed.
+
+Lemma pc_idle_true p : pc_idle p = true -> p = PIdle. Proof. destruct p; cbn; intros; try discriminate; reflexivity. Qed.
+Lemma dtor_pc_inv_entry v f : dtor_pc (inv_entry v f) = false.
+Proof. unfold inv_entry, after_body. destruct (hasb f WAITED), (hasb f CANCELED), (hasb f PERFORM), v; reflexivity. Qed.
+Lemma dtor_pc_after_body v f : dtor_pc (after_body v f) = false.
+Proof. unfold after_body. destruct (hasb f PERFORM); reflexivity. Qed.
+Lemma dtor_pc_call op arg p : call_entry op arg = Some p -> op <> OP_RELEASE -> dtor_pc p = false.
+Proof. intros H1 H2. destruct (call_entry_cases _ _ _ H1 H2) as [->|[->|[->|[->|[->|[->| ->]]]]]]; reflexivity. Qed.
+
+(* the new program point of the moving thread is not one of the destructor's, for every rule but the destructor's own *)
+Ltac newpc_not_dtor :=
+  first [ reflexivity | apply dtor_pc_inv_entry | apply dtor_pc_after_body
+        | match goal with |- dtor_pc (if ?c then _ else _) = false => destruct c; reflexivity end
+        | match goal with |- dtor_pc (sub_next ?v) = false => destruct v; reflexivity end
+        | match goal with |- dtor_pc (post_end ?v) = false => destruct v; reflexivity end
+        | match goal with |- dtor_pc (if ?c then post_end ?v else _) = false => destruct c, v; reflexivity end
+        | (eapply dtor_pc_call; eassumption)
+        | match goal with Hnd : forall u, dtor_pc (pcs ?s u) = false |- dtor_pc (pcs ?s _) = false => apply Hnd end
+        | match goal with Hx : _ \/ _ |- dtor_pc _ = false => destruct Hx as [-> | ->]; reflexivity end ].
+
+Lemma InvD_step s t e s' : gstep s t e = Some s' -> InvW s -> InvD s -> InvD s'.
+Proof.
+  intros Hs W (D1 & D1' & D2 & D3 & D4 & D5 & D7).
+  pose proof (gstep_alive _ _ _ _ Hs) as AL. apply gstep_gs in Hs.
+  destruct (gs_pcs _ _ _ Hs) as (p & Ep & Ea).
+  destruct (active_step (active s) (pcs s) t p D1 D1') as [A1 A2]. rewrite <- Ea in A1, A2. rewrite <- Ep in A2.
+  split; [exact A1|]. split; [exact A2|]. clear A1 A2 Ea.
+  assert (Oth : forall u, u <> t -> pcs s' u = pcs s u) by (intros u Ne; rewrite Ep; apply upd_other; exact Ne).
+  assert (Pt : pcs s' t = p) by (rewrite Ep; apply upd_same). clear Ep.
+  destruct W as (_ & W2 & _).
+  destruct (disposed s) eqn:Ed.
+  - (* the object is being destroyed: only the destroying thread moves *)
+    destruct AL as [X|[Edt Hni]]; [discriminate X|].
+    destruct (D2 eq_refl) as (d & Ed' & Hok & Hoth). assert (d = t) by congruence. subst d. clear Ed'.
+    assert (C7o : forall u, u <> t -> pcs s u = PDtorLeave -> False) by (intros u Ne X; rewrite (Hoth u Ne) in X; discriminate X).
+    destruct Hs;
+      try (rewrite H in Hok; discriminate Hok); try (rewrite H in Hni; discriminate Hni);
+      try (destruct H as [[H _]|[H _]]; [rewrite H in Hni; discriminate Hni | rewrite H in Hok; discriminate Hok]).
+    all: try (destruct H as [[v Hv]|[[tmo Hv]|[Hv|Hv]]]; try (rewrite Hv in Hok; discriminate Hok)).
+    all: unfx; cbv zeta; unfx; sf; repeat match goal with |- context [if ?c then _ else _] => destruct c eqn:? end; sf;
+      sf; rewrite ?Ed, ?Edt.
+    all: (split; [intros _; exists t; split; [reflexivity|]; split;
+                    [rewrite ?upd_same; try reflexivity; try exact Hok
+                    | intros u Ne; rewrite (Oth u Ne); apply Hoth; exact Ne] |]).
+    all: try (split; [discriminate|]).
+    all: (split; [intros X; first [apply D4; exact X
+                                  | split; [apply (D7 t H) | destruct (Z.testbit (flags s) 2) eqn:B;
+                                                              [destruct (W2 eq_refl) as [G0 _]; contradiction|reflexivity]]] |]).
+    all: (split; [exact D5|]).
+    all: intros u X; (destruct (Z.eq_dec u t) as [->|Ne];
+           [rewrite upd_same in X; first [discriminate X | apply Z.eqb_eq; assumption | rewrite Hv in X; discriminate X]
+           | rewrite upd_other in X by exact Ne; exfalso; exact (C7o u Ne X)]).
+  - (* the object is alive *)
+    clear AL. destruct (D3 eq_refl) as (Dl & Hnd).
+    assert (C7o : forall u, pcs s u = PDtorLeave -> False) by (intros u X; specialize (Hnd u); rewrite X in Hnd; discriminate Hnd).
+    destruct Hs;
+      try (specialize (Hnd t); rewrite H in Hnd; discriminate Hnd).
+    all: try (destruct H as [[v Hv]|[[tmo Hv]|[Hv|Hv]]]; [| | |specialize (Hnd t); rewrite Hv in Hnd; discriminate Hnd]).
+    all: unfx; cbv zeta; unfx; sf; repeat match goal with |- context [if ?c then _ else _] => destruct c eqn:? end; sf;
+      rewrite ?Ed, ?Dl.
+    all: try (
+      split; [discriminate|];
+      split; [intros _; split; [reflexivity|]; intros u; (destruct (Z.eq_dec u t) as [->|Ne];
+                [rewrite upd_same; newpc_not_dtor | rewrite upd_other by exact Ne; apply Hnd]) |];
+      split; [discriminate|];
+      split; [first [exact D5 | destruct v; lia | destruct H as [(_ & _ & ? & ->)|(_ & ->)]; lia] |];
+      intros u X; (destruct (Z.eq_dec u t) as [->|Ne];
+        [rewrite upd_same in X; exfalso;
+         match type of X with ?n = PDtorLeave => assert (N : dtor_pc n = false) by newpc_not_dtor; rewrite X in N; discriminate N end
+        | rewrite upd_other in X by exact Ne; exfalso; exact (C7o u X)])).
+    (* the release of the last reference: nobody is inside a call *)
+    assert (Idle : forall u, pcs s u = PIdle).
+    { intros u. apply pc_idle_true. destruct (pc_idle (pcs s u)) eqn:E; [reflexivity|]. apply D1' in E. rewrite H0 in E. destruct E. }
+    split; [intros _; exists t; split; [reflexivity|]; split; [rewrite upd_same; reflexivity|];
+            intros u Ne; rewrite upd_other by exact Ne; apply Idle |].
+    split; [discriminate|]. split; [discriminate|]. split; [exact D5|].
+    intros u X. destruct (Z.eq_dec u t) as [->|Ne]; [rewrite upd_same in X; discriminate X|].
+    rewrite upd_other in X by exact Ne. rewrite Idle in X. discriminate X.
 Qed.
 
 (* ================= all reachable states ================= *)
-Definition Inv (s : gst) : Prop := InvA s /\ InvN s /\ InvW s /\ InvQ s.
+Definition Inv (s : gst) : Prop := InvA s /\ InvN s /\ InvW s /\ InvQ s /\ InvD s.
 
 Theorem inv_reach pf s : reach pf s -> Inv s.
 Proof.
   apply invariant_lift.
-  - intros ? ->. split; [apply InvA_init|split; [apply InvN_init|split; [apply InvW_init|apply InvQ_init]]].
-  - intros s0 [t e] s1 (A & N & W & Q) Hs. unfold step in Hs. cbn in Hs. apply gstep_gs in Hs.
-    split; [eapply InvA_step; eauto|split; [eapply InvN_step; eauto|split; [eapply InvW_step; eauto|eapply InvQ_step; eauto]]].
+  - intros ? ->. split; [apply InvA_init|split; [apply InvN_init|split; [apply InvW_init|split; [apply InvQ_init|apply InvD_init]]]].
+  - intros s0 [t e] s1 (A & N & W & Q & D) Hs. unfold step in Hs. cbn in Hs.
+    pose proof (InvD_step _ _ _ _ Hs W D) as D'. apply gstep_gs in Hs.
+    split; [eapply InvA_step; eauto|split; [eapply InvN_step; eauto|split; [eapply InvW_step; eauto|
+      split; [eapply InvQ_step; eauto|exact D']]]].
 Qed.
 
 Lemma reach_gstep pf s t e s' : reach pf s -> gstep s t e = Some s' -> reach pf s'.
@@ -952,24 +1111,25 @@ Lemma gs_flags s t s' : gs s t s' ->
   flags s' = flags s \/ flags s' = Z.lor (flags s) CANCELED \/ flags s' = Z.lor (flags s) WAITING \/
   flags s' = Z.lor (flags s) WAITED \/ flags s' = Z.land (flags s) NOT_WAITING.
 Proof.
-  intros G. destruct G; unfx; sf;
+  intros G. destruct G; unfx; cbv zeta; unfx; sf;
     repeat match goal with |- context [if ?c then _ else _] => destruct c end; sf; auto 6.
 Qed.
 Lemma gs_frame s t s' : gs s t s' ->
   hasgrp s' = hasgrp s /\ (forall u, u <> t -> pcs s' u = pcs s u) /\
   (cancelled s = true -> cancelled s' = true) /\
   (Z.testbit (flags s) 0 = true -> Z.testbit (flags s') 0 = true) /\
-  (leaves s' = leaves s \/ (exists v, pcs s t = PLeave v /\ gcount s <> 0 /\ leaves s' = leaves s + 1)) /\
+  (leaves s' = leaves s \/ (exists v, pcs s t = PLeave v /\ gcount s <> 0 /\ leaves s' = leaves s + 1 /\ dleave s' = dleave s) \/
+   (pcs s t = PDtorLeave /\ gcount s <> 0 /\ leaves s' = leaves s + 1 /\ dleave s' = true)) /\
   (bodies s' = bodies s \/ (exists v f, pcs s t = PBodyNext v f /\ bodies s' = bodies s + 1)).
 Proof.
   intros G. split; [|split; [|split; [|split; [|split]]]].
-  - destruct G; unfx; sf; repeat match goal with |- context [if ?c then _ else _] => destruct c end; reflexivity.
-  - intros u Ne. destruct G; unfx; sf; repeat match goal with |- context [if ?c then _ else _] => destruct c end; sf;
+  - destruct G; unfx; cbv zeta; unfx; sf; repeat match goal with |- context [if ?c then _ else _] => destruct c end; reflexivity.
+  - intros u Ne. destruct G; unfx; cbv zeta; unfx; sf; repeat match goal with |- context [if ?c then _ else _] => destruct c end; sf;
       apply upd_other; exact Ne.
-  - destruct G; unfx; sf; repeat match goal with |- context [if ?c then _ else _] => destruct c end; sf; auto.
+  - destruct G; unfx; cbv zeta; unfx; sf; repeat match goal with |- context [if ?c then _ else _] => destruct c end; sf; auto.
   - intros B. destruct (gs_flags _ _ _ G) as [-> |[-> |[-> |[-> | ->]]]]; bits; try rewrite B; reflexivity.
-  - destruct G; unfx; sf; repeat match goal with |- context [if ?c then _ else _] => destruct c end; sf; eauto.
-  - destruct G; unfx; sf; repeat match goal with |- context [if ?c then _ else _] => destruct c end; sf; eauto.
+  - destruct G; unfx; cbv zeta; unfx; sf; repeat match goal with |- context [if ?c then _ else _] => destruct c end; sf; eauto 8.
+  - destruct G; unfx; cbv zeta; unfx; sf; repeat match goal with |- context [if ?c then _ else _] => destruct c end; sf; eauto.
 Qed.
 
 Lemma hasgrp_const pf s : reach pf s -> hasgrp s = negb pf.
@@ -978,46 +1138,101 @@ Proof.
   unfold step in Hs; cbn in Hs. apply gstep_gs in Hs. destruct (gs_frame _ _ _ Hs) as [X _]. congruence.
 Qed.
 
-(* ---- C19_wait_zero_after_first_completion ---- *)
-Lemma completion_facts pf s : reach pf s -> hasgrp s = true -> gcount s = 0 ->
-  leaves s = 1 /\ 1 <= ninv s /\ 1 <= fin s.
+(* a thread that is inside an ordinary call proves that the object is alive: the last reference has not been released *)
+Lemma busy_alive pf s t : reach pf s -> dtor_ok (pcs s t) = false -> disposed s = false /\ dleave s = false.
 Proof.
-  intros R Hh G0. destruct (inv_reach pf s R) as ((_ & _ & _ & _ & _ & A6 & _ & A8 & _) & _).
-  rewrite Hh in A8. destruct A8 as (G1 & G2 & G3). assert (leaves s = 1) by lia. auto.
+  intros R H. destruct (inv_reach pf s R) as (_ & _ & _ & _ & (_ & _ & D2 & D3 & _)).
+  destruct (disposed s) eqn:Ed; [|split; [reflexivity|apply D3; reflexivity]].
+  exfalso. destruct (D2 eq_refl) as (d & _ & Hok & Hoth). destruct (Z.eq_dec t d) as [->|Ne]; [congruence|].
+  rewrite (Hoth t Ne) in H. discriminate H.
+Qed.
+
+(* ---- C19_wait_zero_after_first_completion ---- *)
+(* the group is left once: either by the first completion (after an increment of dbpd_performed, after a body / skip), or
+   by the destructor of an object that was never performed *)
+Lemma completion_facts pf s : reach pf s -> hasgrp s = true -> gcount s = 0 ->
+  leaves s = 1 /\ ((dleave s = false /\ 1 <= ninv s /\ 1 <= fin s) \/ (dleave s = true /\ disposed s = true /\ performed s = 0)).
+Proof.
+  intros R Hh G0. destruct (inv_reach pf s R) as ((_ & _ & _ & _ & _ & A6 & _ & A8 & _) & _ & _ & _ & (_ & _ & _ & D3 & D4 & _)).
+  rewrite Hh in A8. destruct A8 as (G1 & G2 & G3). assert (L : leaves s = 1) by lia. split; [exact L|].
+  destruct (dleave s) eqn:Ed.
+  - right. split; [reflexivity|]. split; [|apply D4; reflexivity].
+    destruct (disposed s) eqn:E; [reflexivity|]. destruct (D3 eq_refl) as [X _]. discriminate X.
+  - left. split; [reflexivity|]. destruct (G3 L) as [X|X]; [|discriminate X]. auto.
 Qed.
 
 Lemma wait_zero_after_first_completion pf s t e s' tmo :
   reach pf s -> pcs s t = PWaitG tmo -> gstep s t e = Some s' -> pcs s' t = PWaitOut 0 ->
-  leaves s = 1 /\ 1 <= ninv s /\ 1 <= fin s.
+  leaves s = 1 /\ dleave s = false /\ 1 <= ninv s /\ 1 <= fin s.
 Proof.
   intros R Hpc Hs Hpc'. apply gstep_gs in Hs.
+  assert (AL : disposed s = false /\ dleave s = false) by (apply (busy_alive pf s t R); rewrite Hpc; reflexivity).
   destruct Hs; try (rewrite Hpc in H; discriminate H); sf; try (rewrite upd_same in Hpc'; try discriminate Hpc').
-  - destruct H as [[X _]|X]; rewrite Hpc in X; discriminate X.
+  - destruct H as [[X _]|[X _]]; rewrite Hpc in X; discriminate X.
   - rewrite Hpc in Hpc'. discriminate Hpc'.
-  - apply (completion_facts pf s R); assumption.
+  - destruct (completion_facts pf s R H0 H1) as (L & [(_ & X & Y)|(X & _)]); [|destruct AL; congruence]. destruct AL. auto.
 Qed.
 
 Lemma wait_zero_state pf s t : reach pf s -> (pcs s t = PWaitOut 0 \/ Z.testbit (flags s) 2 = true) ->
-  leaves s = 1 /\ 1 <= ninv s /\ 1 <= fin s.
+  leaves s = 1 /\ dleave s = false /\ 1 <= ninv s /\ 1 <= fin s.
 Proof.
-  intros R H. destruct (inv_reach pf s R) as (_ & _ & (_ & W2 & _ & WT) & _).
-  destruct H as [H|H].
-  - destruct (WT t) as (_ & T2 & _). destruct (T2 H). apply (completion_facts pf s R); assumption.
-  - destruct (W2 H) as (? & ? & _). apply (completion_facts pf s R); assumption.
+  intros R H. destruct (inv_reach pf s R) as (_ & _ & (_ & W2 & _ & WT) & _ & (_ & _ & _ & _ & D4 & _)).
+  assert (Hd : dleave s = false).
+  { destruct H as [H|H].
+    - apply (busy_alive pf s t R). rewrite H. reflexivity.
+    - destruct (dleave s) eqn:E; [|reflexivity]. destruct (D4 eq_refl) as [_ X]. congruence. }
+  assert (X : gcount s = 0 /\ hasgrp s = true).
+  { destruct H as [H|H]; [destruct (WT t) as (_ & T2 & _); apply (T2 H) | destruct (W2 H) as (? & ? & _); auto]. }
+  destruct X as [G0 Hh]. destruct (completion_facts pf s R Hh G0) as (L & [(_ & X & Y)|(X & _)]); [auto|congruence].
 Qed.
 
-(* the private group is left at most once, by a thread that incremented dbpd_performed after its body / skip *)
+(* the private group is left at most once: by a thread that incremented dbpd_performed to 1 after its body / skip, or by
+   the thread that released the last reference of an object that was never performed *)
 Lemma only_leave pf s t e s' : reach pf s -> gstep s t e = Some s' -> leaves s' <> leaves s ->
-  exists v, pcs s t = PLeave v /\ leaves s = 0 /\ leaves s' = 1 /\ gcount s' = 0 /\ 1 <= ninv s /\ 1 <= fin s.
+  leaves s = 0 /\ leaves s' = 1 /\ gcount s' = 0 /\
+  ((exists v, pcs s t = PLeave v /\ 1 <= ninv s /\ 1 <= fin s /\ dleave s' = false) \/
+   (pcs s t = PDtorLeave /\ disposed s = true /\ performed s = 0 /\ dleave s' = true)).
 Proof.
   intros R Hs Hl. pose proof (reach_gstep pf s t e s' R Hs) as R'. apply gstep_gs in Hs.
-  destruct (gs_frame _ _ _ Hs) as (Hh & _ & _ & _ & [X|(v & Hpc & G & L)] & _); [contradiction|].
-  exists v. split; [exact Hpc|].
-  destruct (inv_reach pf s R) as ((_ & _ & _ & _ & _ & A6 & _ & A8 & AT) & _).
+  destruct (inv_reach pf s R) as ((_ & _ & _ & _ & _ & A6 & _ & A8 & AT) & _ & _ & _ & (_ & _ & D2 & D3 & _ & _ & D7)).
   destruct (inv_reach pf s' R') as ((_ & _ & _ & _ & _ & _ & _ & A8' & _) & _).
-  specialize (AT t). unfold tinvA in AT. rewrite Hpc in AT. destruct AT as [N1 Hg]. rewrite Hg in A8.
-  rewrite Hh, Hg in A8'. destruct A8 as (G1 & G2 & G3). destruct A8' as (G1' & G2' & G3').
-  repeat split; auto; lia.
+  destruct (gs_frame _ _ _ Hs) as (Hh & _ & _ & _ & [X|[(v & Hpc & G & L & Dl)|(Hpc & G & L & Dl)]] & _); [contradiction| |].
+  - specialize (AT t). unfold tinvA in AT. rewrite Hpc in AT. destruct AT as [N1 Hg]. rewrite Hg in A8.
+    rewrite Hh, Hg in A8'. destruct A8 as (G1 & G2 & G3). destruct A8' as (G1' & G2' & G3').
+    assert (AL : disposed s = false /\ dleave s = false) by (apply (busy_alive pf s t R); rewrite Hpc; reflexivity).
+    repeat split; try lia. left. exists v. repeat split; auto. rewrite Dl. apply AL.
+  - assert (Hg : hasgrp s = true).
+    { destruct (hasgrp s) eqn:E; [reflexivity|]. destruct A8 as (G0 & _). contradiction. }
+    rewrite Hg in A8. rewrite Hh, Hg in A8'. destruct A8 as (G1 & G2 & G3). destruct A8' as (G1' & G2' & G3').
+    repeat split; try lia. right. repeat split; auto; [|apply (D7 t Hpc)].
+    destruct (disposed s) eqn:E; [reflexivity|]. destruct (D3 eq_refl) as [_ X]. specialize (X t). rewrite Hpc in X. discriminate X.
+Qed.
+Lemma destructor_leaves_iff_never_performed pf s t e s' : reach pf s -> pcs s t = PDtorPerf -> gstep s t e = Some s' ->
+  pcs s' t = (if performed s =? 0 then PDtorLeave else PDtorPost) /\ leaves s' = leaves s.
+Proof.
+  intros R Hpc Hs. apply gstep_gs in Hs.
+  destruct Hs; try (rewrite Hpc in H; discriminate H).
+  - destruct H as [[X _]|[X _]]; rewrite Hpc in X; discriminate X.
+  - destruct H as [[v0 X]|[[tmo X]|[X|X]]]; rewrite Hpc in X; discriminate X.
+  - sf. rewrite upd_same. auto.
+Qed.
+(* the client contract built into the release step, and what follows from it *)
+Lemma last_release_is_quiescent pf s t e s' : reach pf s -> pcs s t = PIdle -> ev_kind e DVU_CALL = true -> ea e = OP_RELEASE ->
+  gstep s t e = Some s' ->
+  (forall u, pcs s u = PIdle) /\ pendsub s = 0 /\ disposed s = false /\ disposed s' = true /\ dtor s' = Some t /\ pcs s' t = PDtorPerf.
+Proof.
+  intros R Hpc K Er Hs. destruct (inv_reach pf s R) as (_ & _ & _ & _ & (_ & D1' & _)).
+  assert (Hp : pcs s' t = PDtorPerf).
+  { pose proof (gstep_tstep _ _ _ _ Hs) as Ht. rewrite Hpc in Ht. unfold tstep in Ht.
+    destruct (is_grp e); [discriminate Ht|]. rewrite K, Er in Ht. cbn in Ht. congruence. }
+  apply gstep_gs in Hs.
+  destruct Hs; try (rewrite Hpc in H; discriminate H).
+  - exfalso. sf. rewrite upd_same in Hp. pose proof (dtor_pc_call _ _ _ H0 H1) as X. rewrite Hp in X. discriminate X.
+  - exfalso. pose proof (dtor_pc_inv_entry v (flags s)) as X. unfold entry_fx in Hp.
+    destruct (hasb (flags s) WAITED); [|destruct (hasb (flags s) CANCELED)]; sf; rewrite upd_same in Hp; rewrite Hp in X; discriminate X.
+  - destruct H as [[v0 X]|[[tmo X]|[X|X]]]; rewrite Hpc in X; discriminate X.
+  - sf. rewrite upd_same. repeat split; auto. intros u. apply pc_idle_true. destruct (pc_idle (pcs s u)) eqn:E; [reflexivity|].
+    apply D1' in E. rewrite H0 in E. destruct E.
 Qed.
 Lemma leave_iff_inc_result_1 self v e p : tstep self (PInc v) e = Some p ->
   (p = PLeave v /\ wrapsz 4 (ea e + 1) = 1) \/ (p = PPost v false /\ wrapsz 4 (ea e + 1) <> 1).
@@ -1074,15 +1289,16 @@ Lemma wait_way_out_effect s t e s' r : pcs s t = PWaitOut r -> gstep s t e = Som
 Proof.
   intros Hpc Hs. apply gstep_gs in Hs.
   destruct Hs; try (rewrite Hpc in H; discriminate H).
-  - destruct H as [[X _]|X]; rewrite Hpc in X; discriminate X.
-  - destruct H as [[v X]|[[tmo X]|X]]; rewrite Hpc in X; discriminate X.
+  - destruct H as [[X _]|[X _]]; rewrite Hpc in X; discriminate X.
+  - destruct H as [[v X]|[[tmo X]|[X|X]]]; rewrite Hpc in X; discriminate X.
   - rewrite Hpc in H. injection H as <-. sf. destruct (r =? 0); bits; auto.
 Qed.
 
 (* ---- C19_notify_once_not_early ---- *)
 Lemma notify_once_not_early pf s i : reach pf s ->
   0 <= fcnt s i <= 1 /\
-  (fcnt s i = 1 -> 0 <= i < nreg s /\ leaves s = 1 /\ 1 <= ninv s /\ 1 <= fin s) /\
+  (fcnt s i = 1 -> 0 <= i < nreg s /\ leaves s = 1 /\
+     ((dleave s = false /\ 1 <= ninv s /\ 1 <= fin s) \/ (dleave s = true /\ disposed s = true /\ performed s = 0))) /\
   (0 <= i < nreg s -> leaves s = 1 -> fcnt s i = 1) /\
   (0 <= i < nreg s -> leaves s = 0 -> fcnt s i = 0 /\ In i (pending s)).
 Proof.
@@ -1100,8 +1316,8 @@ Proof.
 Qed.
 
 (* ---- C19_cancel_before_start_skips_body_but_completes ---- *)
-Lemma entry_after_cancel s t v : InvA s -> cancelled s = true ->
-  let s' := entry_fx (set_pc s t (inv_entry v (flags s))) (flags s) in
+Lemma entry_after_cancel s t v n : InvA s -> cancelled s = true ->
+  let s' := entry_fx (set_pend (set_pc s t (inv_entry v (flags s))) n) (flags s) in
   bodies s' = bodies s /\
   (pcs s' t = PCrash \/ (fin s' = fin s + 1 /\ pcs s' t = (if hasgrp s then PInc v else PPost v false))).
 Proof.
@@ -1117,14 +1333,18 @@ Lemma cancel_before_read_skips pf s t e s' v : reach pf s -> cancelled s = true 
   (pcs s' t = PCrash \/ (fin s' = fin s + 1 /\ pcs s' t = (if hasgrp s then PInc v else PPost v false))).
 Proof.
   intros R C Hpc Hs. destruct (inv_reach pf s R) as (A & _).
-  assert (X : s' = entry_fx (set_pc s t (inv_entry v (flags s))) (flags s)).
-  { unfold gstep, tstep in Hs. destruct Hpc as [Hpc|(Hpc & -> & K)]; rewrite Hpc in Hs.
+  assert (X : exists n, s' = entry_fx (set_pend (set_pc s t (inv_entry v (flags s))) n) (flags s)).
+  { unfold gstep in Hs.
+    match type of Hs with (if ?g then None else _) = _ => destruct g; [discriminate Hs|] end.
+    unfold tstep in Hs. destruct Hpc as [Hpc|(Hpc & -> & K)]; rewrite Hpc in Hs.
     - destruct (is_grp e); [discriminate|].
       destruct (ev_is e DV_LOAD MO_PLAIN OFF_FLAGS); [|discriminate]. cbv zeta in Hs.
-      destruct (Z.eqb_spec (ea e) (flags s)) as [E|]; [|discriminate]. injection Hs as <-. rewrite E. reflexivity.
+      destruct (Z.eqb_spec (ea e) (flags s)) as [E|]; [|discriminate]. injection Hs as <-. rewrite E. exists (pendsub s). reflexivity.
     - destruct (is_grp e); [discriminate|]. rewrite K in Hs.
-      destruct (ev_is e DV_LOAD MO_PLAIN OFF_FLAGS); [|discriminate]. cbv zeta in Hs.
-      destruct (Z.eqb_spec (ea e) (flags s)) as [E|]; [|discriminate]. injection Hs as <-. rewrite E. reflexivity. }
+      destruct (ev_is e DV_LOAD MO_PLAIN OFF_FLAGS); [|discriminate]. cbv zeta in Hs. rewrite ?K in Hs.
+      destruct (Z.eqb_spec (ea e) (flags s)) as [E|]; [|discriminate]. cbn [andb] in Hs.
+      destruct (0 <? pendsub s); [|discriminate]. injection Hs as <-. rewrite E. exists (pendsub s - 1). reflexivity. }
+  destruct X as [n X].
   rewrite X. apply entry_after_cancel; assumption.
 Qed.
 Lemma inc_step pf s t e s' v : reach pf s -> pcs s t = PInc v -> gstep s t e = Some s' ->
@@ -1134,11 +1354,11 @@ Lemma inc_step pf s t e s' v : reach pf s -> pcs s t = PInc v -> gstep s t e = S
 Proof.
   intros R Hpc Hs. destruct (inv_reach pf s R) as ((_ & _ & _ & _ & _ & _ & A7 & _) & _). apply gstep_gs in Hs.
   destruct Hs; try (rewrite Hpc in H; discriminate H).
-  - destruct H as [[X _]|X]; rewrite Hpc in X; discriminate X.
+  - destruct H as [[X _]|[X _]]; rewrite Hpc in X; discriminate X.
   - rewrite Hpc in H. injection H as <-. sf. rewrite upd_same. split; [reflexivity|]. split; [reflexivity|]. split.
     + destruct (Z.eqb_spec (wrapsz 4 (performed s + 1)) 1); auto.
     + intros N0. rewrite A7, N0. reflexivity.
-  - destruct H as [[v0 X]|[[tmo X]|X]]; rewrite Hpc in X; discriminate X.
+  - destruct H as [[v0 X]|[[tmo X]|[X|X]]]; rewrite Hpc in X; discriminate X.
 Qed.
 Lemma leave_step pf s t e s' v : reach pf s -> pcs s t = PLeave v -> gstep s t e = Some s' ->
   (leaves s = 0 /\ gcount s' = 0 /\ leaves s' = 1 /\ pending s' = [] /\ pcs s' t = PPost v true /\
@@ -1148,7 +1368,7 @@ Proof.
   intros R Hpc Hs. pose proof (reach_gstep pf s t e s' R Hs) as R'.
   destruct (inv_reach pf s R) as ((_ & _ & _ & _ & _ & _ & _ & A8 & _) & _). apply gstep_gs in Hs.
   destruct Hs; try (rewrite Hpc in H; discriminate H).
-  - destruct H as [[X _]|X]; rewrite Hpc in X; discriminate X.
+  - destruct H as [[X _]|[X _]]; rewrite Hpc in X; discriminate X.
   - (* the leave *)
     left. rewrite H0 in A8. destruct A8 as (G1 & G2 & G3).
     assert (L0 : leaves s = 0) by lia. assert (G : gcount s = 1) by lia.
@@ -1159,7 +1379,7 @@ Proof.
     repeat split; auto; try lia.
     intros i Ri. destruct (notify_once_not_early pf _ i R') as (_ & _ & X & _). sf. apply X; [exact Ri|lia].
   - right. rewrite H0 in A8. destruct A8 as (G1 & G2 & G3). sf. rewrite upd_same. split; [lia|reflexivity].
-  - destruct H as [[v0 X]|[[tmo X]|X]]; rewrite Hpc in X; discriminate X.
+  - destruct H as [[v0 X]|[[tmo X]|[X|X]]]; rewrite Hpc in X; discriminate X.
 Qed.
 Lemma body_runner_read_clear pf s t : reach pf s ->
   match pcs s t with PSetThread f | PBodyNext _ f | PInBody _ f => Z.testbit f 0 = false | _ => True end.
@@ -1173,7 +1393,8 @@ Lemma running_not_interrupted s t e s' v f : pcs s t = PInBody v f -> gstep s t 
   ev_kind e DVU_CALLOUT_END = true /\ pcs s' t = after_body v f /\ fin s' = fin s + 1 /\ flags s' = flags s /\
   bodies s' = bodies s /\ cancelled s' = cancelled s.
 Proof.
-  intros Hpc Hs. unfold gstep, tstep in Hs. rewrite Hpc in Hs. destruct (is_grp e); [discriminate|].
+  intros Hpc Hs. unfold gstep, tstep in Hs. rewrite Hpc in Hs.
+  match type of Hs with (if ?g then None else _) = _ => destruct g; [discriminate Hs|] end. destruct (is_grp e); [discriminate|].
   destruct (ev_kind e DVU_CALLOUT_END); [|discriminate]. cbv zeta in Hs. injection Hs as <-. sf. rewrite upd_same.
   repeat split; reflexivity.
 Qed.
@@ -1184,7 +1405,8 @@ Proof. intros Hs Ne. apply gstep_gs in Hs. destruct (gs_frame _ _ _ Hs) as (_ & 
 Lemma cancel_sets s t e s' : pcs s t = PCancel -> gstep s t e = Some s' ->
   cancelled s' = true /\ Z.testbit (flags s') 0 = true /\ pcs s' t = PRet 0.
 Proof.
-  intros Hpc Hs. unfold gstep, tstep in Hs. rewrite Hpc in Hs. destruct (is_grp e); [discriminate|].
+  intros Hpc Hs. unfold gstep, tstep in Hs. rewrite Hpc in Hs.
+  match type of Hs with (if ?g then None else _) = _ => destruct g; [discriminate Hs|] end. destruct (is_grp e); [discriminate|].
   destruct (ev_is e DV_OR MO_RELAXED OFF_FLAGS && (eb e =? CANCELED) && (esz e =? 4)); [|discriminate]. cbv zeta in Hs.
   destruct (ea e =? flags s); [|discriminate]. injection Hs as <-. sf. rewrite upd_same. bits. repeat split; reflexivity.
 Qed.
@@ -1197,7 +1419,8 @@ Lemma testcancel_after_cancel pf s t e s' : reach pf s -> cancelled s = true -> 
   gstep s t e = Some s' -> pcs s' t = PRet 1.
 Proof.
   intros R C Hpc Hs. pose proof (cancelled_visible pf s R C) as B.
-  unfold gstep, tstep in Hs. rewrite Hpc in Hs. destruct (is_grp e); [discriminate|].
+  unfold gstep, tstep in Hs. rewrite Hpc in Hs.
+  match type of Hs with (if ?g then None else _) = _ => destruct g; [discriminate Hs|] end. destruct (is_grp e); [discriminate|].
   destruct (ev_is e DV_LOAD MO_PLAIN OFF_FLAGS); [|discriminate]. cbv zeta in Hs.
   destruct (Z.eqb_spec (ea e) (flags s)) as [E|]; [|discriminate]. injection Hs as <-. sf. rewrite upd_same.
   rewrite E, hasb_C, B. reflexivity.
@@ -1234,7 +1457,7 @@ Lemma queue_refs pf s : reach pf s ->
   qref s = 2 * ((if queue s =? 0 then 0 else 1) + Z.of_nat (length (hands s))) /\ 0 <= qref s /\
   (queue s <> 0 -> 2 <= qref s) /\ (forall t, holds (pcs s t) = true -> 2 <= qref s).
 Proof.
-  intros R. destruct (inv_reach pf s R) as (_ & _ & _ & (Q1 & Q2 & Q3)). split; [exact Q1|].
+  intros R. destruct (inv_reach pf s R) as (_ & _ & _ & (Q1 & Q2 & Q3) & _). split; [exact Q1|].
   split; [destruct (queue s =? 0); lia|]. split.
   - intros X. destruct (Z.eqb_spec (queue s) 0); [contradiction|lia].
   - intros t Ht. apply Q3 in Ht. destruct (hands s) as [|x l]; [destruct Ht|]. cbn [length] in Q1.
